@@ -20,6 +20,7 @@ BUDGET_S = {"quick": 150, "thorough": 3000}
 
 SDL = """
 directive @tag on FIELD_DEFINITION
+directive @traced on SCHEMA
 scalar Money
 scalar Counter
 interface Node { id: ID! }
@@ -37,7 +38,7 @@ def sdl_of(i):
     return SDL + """
 extend type Item { only%d: Int stock(n: Int = %d): Int%s }
 extend enum Level { L%d }
-""" % (i, i, " @deprecated" if i % 2 else "", i)
+%s""" % (i, i, " @deprecated" if i % 2 else "", i, "schema @traced { query: Query subscription: Subscription }\n" if i % 2 else "")
 
 KINDS = ["resolvers", "type_resolver", "scalar", "directive", "subscription"]
 PROBES = [
@@ -45,6 +46,7 @@ PROBES = [
     ("q", "{ item2 { __typename id } item { __typename } }"),
     ("q", "query($m: Money) { echo(m: $m) }"),
     ("q", "{ count again: count }"),
+    ("q", "{ value zzNoSuchField item { zzNeither } }"),
     ("q", "{ __type(name: \"Money\") { name kind } __schema { subscriptionType { name } } }"),
     ("q", "{ a: __type(name: \"Item\") { fields(includeDeprecated: true) { name isDeprecated args { name defaultValue } } } "
           "b: __type(name: \"Level\") { enumValues { name } } __schema { types { name fields { name } enumValues { name } } } }"),
@@ -90,6 +92,21 @@ class CounterImpl:
 
 
 COUNTER_CHAIN = [CounterImpl]
+
+
+class TracedImpl:
+    """schema-level execution hook of the odd bundles: stamps the errors of its own responses in place"""
+
+    def __init__(self, i):
+        self.i = i
+
+    async def on_schema_execution(self, directive_args, next_directive, schema, document, parsing_errors, operation_name, context,
+                                  variables, initial_value):
+        result = await next_directive(schema, document, parsing_errors, operation_name, context, variables, initial_value)
+        for e in (result.get("errors") or []) if isinstance(result, dict) else []:
+            if isinstance(e, dict):
+                e.setdefault("extensions", {})["tracedBy"] = "bundle%d" % self.i
+        return result
 
 
 class TagImpl:
@@ -148,6 +165,7 @@ def register(i, kinds):
         COUNTER_CHAIN[0] = Scalar("Counter", schema_name=name)(COUNTER_CHAIN[0])
     if "directive" in kinds:
         Directive("tag", schema_name=name)(TagImpl(i))
+        Directive("traced", schema_name=name)(TracedImpl(i))
     if "subscription" in kinds:
         @Subscription("Subscription.tick", schema_name=name)
         async def tick(p, a, c, info):
